@@ -53,7 +53,7 @@ const (
 
 type opDef struct {
 	name  string // human readable, unique
-	sig   string // signature tag (operator only, no argument)
+	sig   string // signature tag: the operator, without argument or receiver (Add covers Add/AddCheck, Delete covers Delete/DeleteCheck)
 	kind  opKind
 	val   int
 	vals  []int
@@ -69,13 +69,13 @@ func buildOps() []opDef {
 		o = append(o, opDef{name: fmt.Sprintf("Add(%d)", v), sig: "Add", kind: opAdd, val: v})
 	}
 	for v := 1; v <= 3; v++ {
-		o = append(o, opDef{name: fmt.Sprintf("AddCheck(%d)", v), sig: "AddCheck", kind: opAddCheck, val: v})
+		o = append(o, opDef{name: fmt.Sprintf("AddCheck(%d)", v), sig: "Add", kind: opAddCheck, val: v})
 	}
 	for v := 1; v <= 3; v++ {
 		o = append(o, opDef{name: fmt.Sprintf("Delete(%d)", v), sig: "Delete", kind: opDelete, val: v})
 	}
 	for v := 1; v <= 3; v++ {
-		o = append(o, opDef{name: fmt.Sprintf("DeleteCheck(%d)", v), sig: "DeleteCheck", kind: opDeleteCheck, val: v})
+		o = append(o, opDef{name: fmt.Sprintf("DeleteCheck(%d)", v), sig: "Delete", kind: opDeleteCheck, val: v})
 	}
 	o = append(o,
 		opDef{name: "Populate([1,2])", sig: "Populate", kind: opPopulate, vals: []int{1, 2}},
@@ -91,12 +91,12 @@ func buildOps() []opDef {
 		opDef{name: "Iterator", sig: "Iterator", kind: opIterator},
 	)
 	for v := 1; v <= 3; v++ {
-		o = append(o, opDef{name: fmt.Sprintf("B.Add(%d)", v), sig: "B.Add", kind: opBAdd, val: v})
+		o = append(o, opDef{name: fmt.Sprintf("B.Add(%d)", v), sig: "Add", kind: opBAdd, val: v})
 	}
 	for v := 1; v <= 3; v++ {
-		o = append(o, opDef{name: fmt.Sprintf("B.Delete(%d)", v), sig: "B.Delete", kind: opBDelete, val: v})
+		o = append(o, opDef{name: fmt.Sprintf("B.Delete(%d)", v), sig: "Delete", kind: opBDelete, val: v})
 	}
-	o = append(o, opDef{name: "B.SortQuick(asc)", sig: "B.SortQuick", kind: opBSort})
+	o = append(o, opDef{name: "B.SortQuick(asc)", sig: "SortQuick", kind: opBSort})
 	return o
 }
 
@@ -302,8 +302,13 @@ type failure struct {
 }
 
 func (f *failure) sig(sp kindSpec, op opDef) string {
-	if f.oracle == "equal" {
+	switch f.oracle {
+	case "equal":
 		return "set/equal/wrong-answer"
+	case "retval-AddCheck":
+		return fmt.Sprintf("set/%s/retval/AddCheck", sp.base)
+	case "retval-DeleteCheck":
+		return fmt.Sprintf("set/%s/retval/DeleteCheck", sp.base)
 	}
 	return fmt.Sprintf("set/%s/%s/%s", sp.base, f.oracle, op.sig)
 }
@@ -340,13 +345,13 @@ func stepImpl(sp kindSpec, A **dt.Set[int], B *dt.Set[int], a, b *model, op opDe
 		s.Add(op.val)
 	case opAddCheck:
 		if got := s.AddCheck(op.val); got != e.ret {
-			return &failure{"retval", fmt.Sprintf("AddCheck(%d)=%v, reference says present-before=%v", op.val, got, e.ret)}, false
+			return &failure{"retval-AddCheck", fmt.Sprintf("AddCheck(%d)=%v, reference says present-before=%v", op.val, got, e.ret)}, false
 		}
 	case opDelete:
 		s.Delete(op.val)
 	case opDeleteCheck:
 		if got := s.DeleteCheck(op.val); got != e.ret {
-			return &failure{"retval", fmt.Sprintf("DeleteCheck(%d)=%v, reference says present-before=%v", op.val, got, e.ret)}, false
+			return &failure{"retval-DeleteCheck", fmt.Sprintf("DeleteCheck(%d)=%v, reference says present-before=%v", op.val, got, e.ret)}, false
 		}
 	case opPopulate:
 		s.Populate(fun.SliceIterator(append([]int{}, op.vals...)))
